@@ -465,6 +465,50 @@ def corr_scanrun(ck: core.Check, drv) -> None:
         ck.broken("correspondence", "scanRun not observable", f"onnxruntime accepted only {ran}/{len(cases)} raw Scan models")
 
 
+def corr_scanstate(ck: core.Check, drv) -> None:
+    """Round 10. `scanStateTy` vs. the type the real `op.scan` of every opset module reports for a final state
+    (all pairs initial type x body result type over STATE_TYS); `guardBody` (the runtime's loop-state rule)
+    vs. onnxruntime on raw Scan nodes whose body keeps / changes the state's shape, scan length 1-3."""
+    tys = IF.STATE_TYS
+    pairs = [(a, b) for a in tys for b in tys]
+    mism, outcomes = 0, {}
+    model = drv.ask_many("C06", [{"k": "scanstate", "S0": a, "R": b} for a, b in pairs])
+    for mi, module in enumerate(P.OPSET_MODULES):
+        for pi, ((a, b), m) in enumerate(zip(pairs, model)):
+            if module != "v17" and not ck.thorough and (pi + mi) % 4:
+                continue
+            real = IF.real_scan_state(a, b, module)
+            ck.count(("scanstate", module, json.dumps([a, b])))
+            oc = "ok" if "ty" in real else real.get("err", "?")
+            outcomes[oc] = outcomes.get(oc, 0) + 1
+            if m != real:
+                mism += 1
+                if mism <= 5:
+                    ck.broken("correspondence", f"scanStateTy model-vs-op.scan ({module})",
+                              f"S0={json.dumps(a)} R={json.dumps(b)} model={json.dumps(m)} real={json.dumps(real)}")
+    runs = [{"k": "scanguard", "body": kind, "state": {"e": "f32", "s": sh}, "n": n}
+            for kind in ("keep", "double", "head", "flatten") for sh in ([3], [1], [2, 3], [1, 4], [0]) for n in (1, 2, 3)]
+    rmism, accepted, refused = 0, 0, 0
+    for rq, m in zip(runs, drv.ask_many("C06", runs)):
+        try:
+            real = IF.raw_scan_state_run(rq["body"], rq["state"]["s"], rq["n"])
+            accepted += 1
+        except Exception:  # noqa: BLE001
+            real = None
+            refused += 1
+        ck.count(("scanguard", json.dumps(rq)))
+        mo = m.get("run")
+        got = None if mo is None else mo["final"] + mo["outs"]
+        if got != real:
+            rmism += 1
+            if rmism <= 3:
+                ck.broken("correspondence", "guardBody (Scan loop-state rule) model-vs-onnxruntime (raw Scan node)",
+                          f"req={json.dumps(rq)} model={json.dumps(m)} runtime={json.dumps(real)}")
+    ck.cov["scanstate_correspondence"] = {"type_pairs": len(pairs), "modules": list(P.OPSET_MODULES), "type_mismatches": mism,
+                                          "real_outcomes": outcomes, "raw_runs": len(runs), "runtime_accepted": accepted,
+                                          "runtime_refused": refused, "raw_mismatches": rmism}
+
+
 def corr_nontensor(ck: core.Check, drv) -> None:
     """Sequence / Optional typed inputs (outside `Ty`): each routine raises (class compared) or hands
     the type through; a passed-through non-tensor type is then tried under onnxruntime — the property
@@ -1008,6 +1052,7 @@ def run(ck: core.Check):
         _facet(ck, "runtime-spec correspondence", corr_rt, ck, drv)
         _facet(ck, "loopRun correspondence", corr_looprun, ck, drv)
         _facet(ck, "scanRun correspondence", corr_scanrun, ck, drv)
+        _facet(ck, "Scan state correspondence", corr_scanstate, ck, drv)
         ck.log("runtime-spec correspondence done")
         _facet(ck, "conforms/strip correspondence", corr_conf, ck, drv)
         _facet(ck, "non-tensor inputs correspondence", corr_nontensor, ck, drv)
